@@ -43,7 +43,7 @@ ACTORS = ["views", "dispatch_history", "rule_solve", "graph", "env_episode", "cp
 def generate(seed, tier):
     rng = stream(seed, "c14")
     if rng.random() < 0.45:
-        spec = gen_instance(rng, max_jobs=4, max_machines=4, max_ops=4, flexible=False)
+        spec = gen_instance(rng, sparse_ids=0.03, large=0.008, max_jobs=4, max_machines=4, max_ops=4, flexible=False)
         n = n_ops(spec)
         hist = [["dispatch", rng.randrange(64), 0, 0] for _ in range(n)]
         ops = []
@@ -58,7 +58,7 @@ def generate(seed, tier):
             else:
                 ops.append(["shuffle", rng.randrange(8), rng.randrange(1 << 30)])
         return {"prop": PROP, "kind": "sequences", "cfg": {"instance": spec, "history": hist}, "ops": ops}
-    spec = gen_instance(rng, max_jobs=4, max_machines=4, max_ops=4)
+    spec = gen_instance(rng, sparse_ids=0.03, large=0.008, max_jobs=4, max_machines=4, max_ops=4)
     spec["name"] = rng.choice(["sim", "la01", "my instance", "a.b"])
     spec["metadata"] = rng.choice([{}, {"optimum": 7}, {"lower_bound": 1, "tags": ["x", "y"]}])
     ops = []
